@@ -66,6 +66,15 @@ func (vc *VC) ufApply(st *state, name string, args []Val, rt types.Type, hint st
 		if !ok {
 			continue // interior pointers do not take part in the functional model
 		}
+		if a.Typ != nil {
+			if sl, isSlice := a.Typ.Underlying().(*types.Slice); isSlice && !isByteSlice(a.Typ) && !isDiagnostics(a.Typ) {
+				// the result may depend on the elements, not on the identity of the backing array
+				inner := vc.sel(st, vc.elemKey(sl.Elem()), "(sarr "+t+")")
+				sorts = append(sorts, "(Array Int "+vc.S.sortOf(sl.Elem())+")", "Int")
+				terms = append(terms, inner, "(slen "+t+")")
+				continue
+			}
+		}
 		sorts = append(sorts, vc.S.sortOf(a.Typ))
 		terms = append(terms, t)
 	}
@@ -385,6 +394,21 @@ func (vc *VC) modularCall(fr *frame, callee *ssa.Function, key string, c *Contra
 	if call != nil {
 		pos = vc.pos(fr, call.Pos())
 	}
+	// ghost variables of the callee are universally quantified: its preconditions are proved for
+	// fresh (arbitrary) values of them
+	for _, g := range c.Ghosts {
+		t, err := env.resolveType(g.Type)
+		if err != nil {
+			continue
+		}
+		if cg, ok := vc.ghosts[g.Name]; ok && cg.Typ != nil && vc.S.sortOf(cg.Typ) == vc.S.sortOf(t) && fr != nil && fr.depth == 0 {
+			env.vars[g.Name] = cg
+			continue
+		}
+		n := vc.freshConst("callghost:"+g.Name, vc.S.sortOf(t))
+		vc.assumeInv(st, n, t)
+		env.vars[g.Name] = vc.mkVal(n, t)
+	}
 	for _, r := range c.Requires {
 		if r.Kind == "assume" {
 			continue
@@ -398,12 +422,14 @@ func (vc *VC) modularCall(fr *frame, callee *ssa.Function, key string, c *Contra
 	}
 	// results
 	var res Val
-	if c.Extern || c.Trusted || c.Functional || c.Pure && callee != nil && callee.Blocks == nil {
+	if c.Extern || c.Trusted || c.Functional || c.Deterministic || c.Pure && callee != nil && callee.Blocks == nil {
 		res = vc.ufApply(st, key, args, rt, hint)
 	} else {
 		res = vc.freshResult(st, rt, hint)
 	}
-	// frame
+	// frame: cells that existed before the call change only at the declared locations. Cells the callee
+	// allocates lie at references >= the allocation counter at the call; nothing was known about
+	// the heap arrays there, so they need no havoc (the postconditions constrain them directly).
 	pre := &state{reach: st.reach, heap: st.heap.clone()}
 	if !c.Pure && (len(c.Modifies) > 0 || c.ModAll || !c.Extern) {
 		chains := map[string]string{}
@@ -413,6 +439,7 @@ func (vc *VC) modularCall(fr *frame, callee *ssa.Function, key string, c *Contra
 					chains[k] = vc.freshConst("any:"+k, srt)
 				}
 			}
+			vc.havocFrame(st, chains, vc.allHeapKeys(st.heap))
 		} else {
 			penv := *env
 			penv.st = pre
@@ -421,8 +448,19 @@ func (vc *VC) modularCall(fr *frame, callee *ssa.Function, key string, c *Contra
 					vc.errorf("%s: modifies of %s: %v", vc.fnKey, key, err)
 				}
 			}
+			var ks []string
+			for k := range chains {
+				ks = append(ks, k)
+			}
+			sort.Strings(ks)
+			for _, k := range ks {
+				st.heap[k] = vc.define("post:"+k, vc.heapSort[k], chains[k])
+			}
+			bound := vc.allocTerm(st.heap)
+			na := vc.freshConst("alloc", "Int")
+			vc.assume(st.reach, fmt.Sprintf("(>= %s %s)", na, bound))
+			st.heap["$alloc"] = na
 		}
-		vc.havocFrame(st, chains, vc.allHeapKeys(st.heap))
 	}
 	// ensures
 	post := &SpecEnv{vc: vc, vars: map[string]Val{}, st: st, old: pre.heap, contract: c, reach: st.reach, pkg: env.pkg}
@@ -451,6 +489,9 @@ func (vc *VC) modularCall(fr *frame, callee *ssa.Function, key string, c *Contra
 	}
 	if c.Extern || c.Trusted {
 		vc.assumed["assumed contract: "+key] = true
+	}
+	if c.Deterministic {
+		vc.assumed["assumed deterministic (result depends on the arguments only): "+key] = true
 	}
 	return res
 }
